@@ -89,7 +89,7 @@ def versions_for(case):
 def hypothesis_run(ctx):
     global _ctx
     _ctx = ctx
-    n = 500 if ctx.tier == "quick" else 8000
+    n = 500 if ctx.tier == "quick" else 24000
     _hist.run_machine(ctx, PureMachine, n, 15 if ctx.tier == "quick" else 30)
 
 
